@@ -2,7 +2,7 @@
   Driver glue shared by C13 / C14 / C15: a whole operation history travels in one request
   line, the answer lists what the model predicts to be observable after every step.
 
-  request  (Cxx run (cfg asc|desc <thresh>) (vals (<key> <hexbytes> <ty>)…) (ops <op>…))
+  request  (Cxx run (cfg asc|desc <thresh>) (vals (<key> <metakey> <hexbytes> <ty>)…) (ops <op>…))
     key  : n | i<int> | s<hex>
     op   : (load b (toks…) (parts (toks…)…)) | (delete b (ids…)) | (delwhere b (deltoks…) (parts …))
          | (compact b (ids…) 0|1 (parts …)) | (addvec b (ids…)) | (delvec b (ids…))
@@ -39,6 +39,7 @@ def Key.le : Key → Key → Bool
 structure Val where
   tok : Nat
   key : Key
+  mkey : Key
   bytes : List UInt8
   ty : Nat
   deriving DecidableEq, Repr, Inhabited
@@ -52,7 +53,7 @@ def valLe (desc : Bool) (a b : Val) : Bool :=
   else bytesLe x.bytes y.bytes
 
 def mkCfg (desc : Bool) (thresh : Nat) : Cfg Key Val :=
-  { key := (·.key), kle := Key.le, keq := (· == ·), vle := valLe desc, desc := desc,
+  { key := (·.key), mkey := (·.mkey), kle := Key.le, keq := (· == ·), vle := valLe desc, desc := desc,
     thresh := thresh, size := (·.bytes.length) }
 
 def keyOf (s : String) : Option Key :=
@@ -76,12 +77,13 @@ def nats : List Sexp → Option (List Nat)
 
 def parseVals : List Sexp → Nat → Option (List Val)
   | [], _ => some []
-  | .list [.atom k, .atom h, .atom t] :: r, i => do
+  | .list [.atom k, .atom mk, .atom h, .atom t] :: r, i => do
     let key ← keyOf k
+    let mkey ← keyOf mk
     let bytes ← Sexp.bytesOfHex h
     let ty ← t.toNat?
     let rest ← parseVals r (i + 1)
-    pure ({ tok := i, key := key, bytes := bytes, ty := ty } :: rest)
+    pure ({ tok := i, key := key, mkey := mkey, bytes := bytes, ty := ty } :: rest)
   | _, _ => none
 
 def toks (tbl : Array Val) (xs : List Sexp) : Option (List Val) := do
@@ -131,11 +133,17 @@ def scanOut (r : Except Err (List Val)) : Sexp :=
   | .ok vs => .list (.atom "scan" :: tokList vs)
   | .error _ => .list [.atom "scan"]
 
+/-- `semantic.analyzer`: a pool reference whose commit resolves to `ksuid.Nil` (a branch that
+    has no commit yet) "defaults to the main branch". -/
+def resolveTip (s : State Key Val) (t : Nat) : Nat :=
+  if t = 0 then (s.tip 0).getD 0 else t
+
 def branchOut (cfg : Cfg Key Val) (s : State Key Val) (b : Nat × Nat) : Sexp :=
-  match snapAt s.commits b.2 with
+  let rt := resolveTip s b.2
+  match snapAt s.commits rt with
   | .error e => .list [.atom (toString b.1), .atom (toString b.2), .atom e.toStr, .list [.atom "objs"], .list [.atom "scan"]]
   | .ok snap =>
-    let q := State.query cfg s b.2
+    let q := State.query cfg s rt
     .list [.atom (toString b.1), .atom (toString b.2), .atom (statusOf q),
            .list (.atom "objs" :: (lister cfg snap.objs).map (objOut s snap)), scanOut q]
 
